@@ -453,3 +453,27 @@ def postprocess(th_ins: List[Ins], labels: Dict[str, int]):
             new.append(Ins("wait_wake", ins.line, ins.file, ins.a, ins.b, ins.c, ins.d, "woken / timed out"))
     remap[len(th_ins)] = len(new)
     return new, {l: remap[i] for l, i in labels.items()}, remap
+
+
+def shared_lines(S: "System"):
+    """(file basename, line) of every scheduling point (macro-step start) of every thread"""
+    import os
+    out = set()
+    for th in S.threads:
+        for i in S.cut_points(th):
+            if i < len(th.ins) and th.ins[i].line:
+                out.add((os.path.basename(th.ins[i].file), th.ins[i].line))
+    return sorted(out)
+
+
+def grants(trace):
+    """one grant per macro-step that starts on a new (thread, line): the replay lets the named thread run to its next
+    scheduling-point line"""
+    import os
+    out, last = [], {}
+    for e in trace:
+        key = (os.path.basename(e["file"]), e["line"])
+        if e["line"] and last.get(e["thread"]) != key:
+            out.append(e["thread"])
+        last[e["thread"]] = key
+    return out
